@@ -17,7 +17,7 @@ Trace == ndJsonDeserialize(TraceFile)
 VARIABLES l, fails
 vars == <<l, fails>>
 
-PriorIsFile(sc) == sc.prior \in {"own", "older", "garbage"}
+PriorIsFile(sc) == sc.prior \in {"own", "ownnoop", "older", "garbage"}
 
 (* C17 *)
 FailureWritesNothing(r) == LET o == r.obs sc == r.sc IN
@@ -52,6 +52,10 @@ C15(r) == LET o == r.obs sc == r.sc IN
     /\ (sc.rm /\ sc.out = "file" /\ PriorIsFile(sc) /\ sc.fault = "none" /\ sc.args \in {"ok", "ok2"})
           => (o.exit = 0 /\ o.outEqualsRef /\ (o.straceOK => o.unlinkBeforeLoad))            \* -rm: prior content irrelevant
 
+(* C16 at the command line: whatever layout the previous file had, a run    *)
+(* with the default formatter leaves exactly the canonical output            *)
+C16(r) == (r.sc.prior = "ownnoop" /\ r.sc.out = "file" /\ r.obs.exit = 0) => r.obs.outEqualsRef
+
 (* conformance with the prediction of spec/Cli.tla *)
 Conforms(r) == LET o == r.obs p == r.pred IN
     /\ o.exit = p.exit
@@ -59,7 +63,7 @@ Conforms(r) == LET o == r.obs p == r.pred IN
     /\ (p.srcOnStdout = "full") <=> (o.exit = 0 /\ r.sc.out = "stdout")
 
 Check(name, ok) == IF ok THEN {} ELSE {name}
-Verdict(r) == Check("C15", C15(r)) \cup Check("C17", C17(r)) \cup Check("C18", C18(r)) \cup Check("C19", C19(r))
+Verdict(r) == Check("C15", C15(r)) \cup Check("C16", C16(r)) \cup Check("C17", C17(r)) \cup Check("C18", C18(r)) \cup Check("C19", C19(r))
               \cup Check("drift", Conforms(r))
 
 Init == l = 1 /\ fails = {}
